@@ -288,3 +288,93 @@ def text_key(text):
 
 def short_exc(e):
   return f'{type(e).__name__}: {str(e).strip()[:240]}'
+
+# ---------------------------------------------------------------------- candidate defect F4: repair experiment
+# A constant sub-expression is emitted unfolded with every operand narrowed to the width of the FOLDED value
+# (2'( __const__n ) >> 2'd1 with n = 6).  To decide whether a disagreement is explained by that alone, the harness
+# rebuilds the module with every such sub-expression replaced by the value pymtl3 itself computes (python ints),
+# and lets Coq simulate the repaired text: agreement after the repair = the disagreement is of this class.
+PYOPS = {'BAdd': lambda a, b: a + b, 'BSub': lambda a, b: a - b, 'BMul': lambda a, b: a * b, 'BShl': lambda a, b: a << b,
+         'BShr': lambda a, b: a >> b, 'BAnd': lambda a, b: a & b, 'BOr': lambda a, b: a | b, 'BXor': lambda a, b: a ^ b,
+         'BMod': lambda a, b: a % b}
+OPSYM = {'BAdd': '+', 'BSub': '-', 'BMul': '*', 'BShl': '<<', 'BShr': '>>', 'BAnd': '&', 'BOr': '|', 'BXor': '^', 'BMod': '%', 'BDiv': '/'}
+
+def param_values(mod):
+  pv = {}
+  for (n, t, dims), i in mod['params']:
+    if not dims and t[0] == 'bits' and i[0] == 'expr' and i[1][0] in ('lit', 'num'):
+      pv[n] = i[1][2] if i[1][0] == 'lit' else i[1][1]
+  return pv
+
+def const_tree(e, pv):
+  """None, or (true value as python computes it, width, narrowed?, ops) for a constant sub-expression"""
+  k = e[0]
+  if k == 'lit': return (e[2], e[1], e[2] >= (1 << e[1]), [])
+  if k == 'cast' and e[2][0] == 'id' and e[2][1] in pv: return (pv[e[2][1]], e[1], pv[e[2][1]] >= (1 << e[1]), [])
+  if k == 'cast' and e[2][0] == 'lit': return (e[2][2], e[1], e[2][2] >= (1 << e[1]), [])
+  if k == 'bin' and e[1] in PYOPS:
+    a, b = const_tree(e[2], pv), const_tree(e[3], pv)
+    if a is None or b is None: return None
+    if e[1] in ('BShl', 'BShr') and not (0 <= b[0] < 4096): return None
+    if e[1] == 'BMod' and b[0] == 0: return None
+    try: v = PYOPS[e[1]](a[0], b[0])
+    except Exception: return None
+    w = a[1] if e[1] in ('BShl', 'BShr') else max(a[1], b[1])
+    return (v, w, a[2] or b[2], a[3] + b[3] + [OPSYM[e[1]]])
+  return None
+
+def repair_expr(e, pv, hits):
+  c = const_tree(e, pv)
+  if c is not None and c[3] and c[2]:
+    hits.append((c[3], e, c[0]))
+    return ('lit', c[1], c[0] % (1 << c[1]))
+  k = e[0]; R = lambda x: repair_expr(x, pv, hits)
+  if k in ('member',): return (k, R(e[1]), e[2])
+  if k == 'range': return (k, R(e[1]), e[2], e[3])
+  if k == 'index': return (k, R(e[1]), R(e[2]))
+  if k == 'plus': return (k, R(e[1]), R(e[2]), e[3])
+  if k == 'concat': return (k, [R(x) for x in e[1]])
+  if k in ('repl', 'un', 'cast'): return (k, e[1], R(e[2]))
+  if k == 'bin': return (k, e[1], R(e[2]), R(e[3]))
+  if k == 'cond': return (k, R(e[1]), R(e[2]), R(e[3]))
+  return e
+
+def repair_stmt(st, pv, hits):
+  R = lambda x: repair_expr(x, pv, hits)
+  if st[0] in ('blk', 'nb'): return (st[0], R(st[1]), R(st[2]))
+  if st[0] == 'if': return ('if', R(st[1]), [repair_stmt(x, pv, hits) for x in st[2]], [repair_stmt(x, pv, hits) for x in st[3]])
+  _, v, init, cmp, bound, inc, step, body = st
+  return ('for', v, R(init), cmp, R(bound), inc, R(step), [repair_stmt(x, pv, hits) for x in body])
+
+def repair_file(f):
+  """returns (hits, restore): modules of f are replaced IN PLACE by their repaired version; restore() undoes it"""
+  saved = [dict(m) for m in f.modules]
+  hits = []
+  for m in f.modules:
+    pv = param_values(m)
+    items = []
+    for it in m['items']:
+      if it[0] == 'assign': items.append(('assign', repair_expr(it[1], pv, hits), repair_expr(it[2], pv, hits)))
+      elif it[0] in ('comb', 'ff'): items.append((it[0], it[1], [repair_stmt(x, pv, hits) for x in it[2]]))
+      else: items.append((it[0], it[1], it[2], [(p, repair_expr(e, pv, hits)) for p, e in it[3]]))
+    m['items'] = items
+  def restore():
+    for m, sv_ in zip(f.modules, saved): m['items'] = sv_['items']
+  return hits, restore
+
+def expr_text(e):
+  k = e[0]; T = expr_text
+  if k == 'lit': return f"{e[1]}'d{e[2]}"
+  if k == 'num': return str(e[1])
+  if k == 'id': return e[1]
+  if k == 'member': return f'{T(e[1])}.{e[2]}'
+  if k == 'index': return f'{T(e[1])}[{T(e[2])}]'
+  if k == 'range': return f'{T(e[1])}[{e[2]}:{e[3]}]'
+  if k == 'plus': return f'{T(e[1])}[{T(e[2])} +: {e[3]}]'
+  if k == 'concat': return '{ ' + ', '.join(T(x) for x in e[1]) + ' }'
+  if k == 'repl': return f'{{ {e[1]} {{ {T(e[2])} }} }}'
+  if k == 'un': return {'UNot': '~', 'UNeg': '-', 'UPlus': '+', 'URedAnd': '&', 'URedOr': '|', 'URedXor': '^', 'ULogNot': '!'}[e[1]] + '( ' + T(e[2]) + ' )'
+  if k == 'bin': return f'( {T(e[2])} {OPSYM.get(e[1], e[1])} {T(e[3])} )'
+  if k == 'cond': return f'( {T(e[1])} ? {T(e[2])} : {T(e[3])} )'
+  if k == 'cast': return f"{e[1]}'( {T(e[2])} )"
+  return '?'
